@@ -103,7 +103,7 @@ class Executor:
                 CTX.counters["runs_with_builtin_set"] += 1
             else:
                 seams.inject_simset()
-        with World(budget=self.swarm.get("step_budget", 5_000_000)) as w:
+        with World(budget=self.swarm.get("step_budget", 5_000_000), dot_root=bool(self.swarm.get("dot_root"))) as w:
             self.world = w
             prev_state = None
             for idx, op in enumerate(self.ops):
@@ -274,13 +274,16 @@ class Executor:
             keys = sorted(files)
         except (TypeError, KeyError):
             return {"noop": "no_valid_cache"}
-        if not keys:
+        if not isinstance(files, dict) or not keys:
             return {"noop": "no_entries"}
         key = keys[op["index"] % len(keys)]
         e = files[key]
         what = op["what"]
-        if not e["measurements"]:
-            return {"noop": "entry_without_measurements"}
+        # earlier structural faults of the same history may have left any shape behind
+        if (not isinstance(e, dict) or not isinstance(e.get("measurements"), list) or not e["measurements"]
+                or not all(isinstance(m, dict) and isinstance(m.get("unit_name"), str) for m in e["measurements"])
+                or not isinstance(e.get("checksum"), str)):
+            return {"noop": "entry_not_well_formed"}
         for m in e["measurements"]:
             m["unit_name"] = "MARK_" + m["unit_name"]
         if what == "checksum":
@@ -288,6 +291,8 @@ class Executor:
         elif what == "checksum_of":
             # give it the checksum of another entry (a per-content, not per-path, lookup would reuse it)
             other = files[keys[(op["index"] + 1) % len(keys)]]
+            if not isinstance(other, dict) or not isinstance(other.get("checksum"), str):
+                return {"noop": "entry_not_well_formed"}
             if other["checksum"] == e["checksum"]:
                 return {"noop": "same_checksum"}
             # the forged checksum must really be wrong for the file now stored under this path:
